@@ -830,6 +830,11 @@ regp_recv(RegP *p, RPMaybeFrame *mf)
     case RP_EP_TCP: {
         const ssize_t rc = lenp_decode_source_to_sink(&p->ep.source, &recv);
         if (rc < 0) {
+            /* No frame is handed to the caller, so nobody else could ever
+             * release a block the sink may have allocated. */
+            if (cs.buffer.data != NULL) {
+                block_free(p->alloc, cs.buffer.data);
+            }
             return rc;
        }
     } break;
@@ -839,6 +844,9 @@ regp_recv(RegP *p, RPMaybeFrame *mf)
         RFC1055Context slip = RFC1055_CONTEXT_INIT_DEFAULT;
         const int rc = rfc1055_decode(&slip, &p->ep.source, &recv);
         if (rc < 0) {
+            if (cs.buffer.data != NULL) {
+                block_free(p->alloc, cs.buffer.data);
+            }
             return rc;
         }
     } break;
